@@ -23,8 +23,25 @@ def split_top(s, sep=','):
     """split on sep at nesting depth 0 of (), [], <>, {}"""
     out, depth, cur = [], 0, ''
     i = 0
+    instr = False
     while i < len(s):
         ch = s[i]
+        if instr:
+            # inside a string literal nothing nests and nothing separates
+            cur += ch
+            if ch == '\\' and i + 1 < len(s):
+                cur += s[i + 1]
+                i += 2
+                continue
+            if ch == '"':
+                instr = False
+            i += 1
+            continue
+        if ch == '"':
+            instr = True
+            cur += ch
+            i += 1
+            continue
         if ch in '([{<':
             depth += 1
         elif ch in ')]}':
